@@ -243,12 +243,14 @@ theorem max_size_le_packet (mtu oh : Nat) (peer : Option Nat) :
             ∧ m = Nat.min (p - Gen.dgSizeBound) (mtu - oh - Gen.dgSizeBound) :=
   ⟨maxSize_none_iff mtu oh peer, fun r h => maxSize_some mtu oh peer r h⟩
 
-/-- with a legal path MTU (≥ 1200) and a legal CID length `max_size()` cannot panic -/
-theorem max_size_no_panic (mtu cid : Nat) (peer : Option Nat) (hm : Gen.initialMtu ≤ mtu) (hc : cid ≤ 20) :
-    maxSize mtu (overhead cid) peer ≠ none := by
+/-- with a legal path MTU (≥ 1200) and legal CID lengths `max_size()` cannot panic, with 1-RTT keys (`scid = none`)
+    or with 0-RTT keys only (`scid = some l`, long header) -/
+theorem max_size_no_panic (mtu cid : Nat) (scid : Option Nat) (peer : Option Nat) (hm : Gen.initialMtu ≤ mtu)
+    (hc : cid ≤ 20) (hs : ∀ l, scid = some l → l ≤ 20) :
+    maxSize mtu (overhead cid scid) peer ≠ none := by
   intro h
-  have h1 := (maxSize_none_iff mtu (overhead cid) peer).1 h
-  have h2 := overhead_le cid hc
+  have h1 := (maxSize_none_iff mtu (overhead cid scid) peer).1 h
+  have h2 := overhead_le cid scid hc hs
   simp only [Gen.initialMtu, Gen.dgSizeBound] at *
   omega
 
@@ -259,9 +261,128 @@ theorem accepted_datagram_fits_packet (mtu oh : Nat) (peer : Option Nat) (m : Na
     ∃ fs, frameSize d = some fs ∧ fs ≤ mtu - oh :=
   fits_packet mtu oh peer m h hmtu d hd
 
-/-! ### non-vacuity (concrete runs meeting the hypotheses) and an observation -/
+/-- never oversized, on the packet as it is really built (layouts from RFC 9000 §17.2.3 / §17.3.1, not from the
+    code): every datagram `send` can accept (`len ≤ max_size()`) fits as one whole frame a packet of at most
+    `current_mtu` bytes with the header really in use — the 1-RTT short header with the current remote CID
+    (`scid = none`) or, while only 0-RTT keys exist, the 0-RTT long header with the local CID of `l` bytes
+    (`scid = some l`) — for every packet-number length (audit SD-13) -/
+theorem accepted_datagram_fits_real_packet (mtu dcid : Nat) (scid : Option Nat) (peer : Option Nat) (m : Nat)
+    (h : maxSize mtu (overhead dcid scid) peer = some (some m)) (hmtu : mtu < 2^62) (d : Bytes) (hd : d.length ≤ m)
+    (pn : Nat) (hpn : pn ≤ 4) :
+    ∃ fs, frameSize d = some fs ∧ dataPacketLen dcid scid pn fs Gen.dgTagLenGuess ≤ mtu :=
+  fits_real_packet mtu dcid scid peer m h hmtu d hd pn hpn
+
+/-- the purge at the top of every `poll_transmit` (`drop_unsendable_datagrams`): with `max_size() = Some(m)` it
+    removes exactly the maximal prefix of queued datagrams longer than `m` — nothing that still fits, nothing
+    behind a datagram that fits —, keeps the accounting, and clears `send_blocked` (emitting `DatagramsUnblocked`)
+    exactly when it was set and something was dropped -/
+theorem purge_glue (ops : List Op) (hw : ∀ op ∈ ops, op.WF) (max : Option Nat) :
+    let s := exec init ops
+    (max = none ∧ purgeGlue s max = (s, .glue none))
+    ∨ (∃ m, max = some m
+        ∧ purgeGlue s max =
+          ({ s with outgoing := s.outgoing.dropWhile (unfit m), outgoingTotal := sumLen (s.outgoing.dropWhile (unfit m)),
+                    sendBlocked := s.sendBlocked && !(headUnfit m s.outgoing) },
+           .glue (some (headUnfit m s.outgoing, headUnfit m s.outgoing && s.sendBlocked)))) :=
+  purgeGlue_char _ (exec_inv ops init init_inv hw).out max
+
+/-- no unsendable datagram blocks the queue: whatever made the maximum shrink since a datagram was accepted (a
+    migration to a fresh path, `path_changed`, a longer remote CID, a black hole, the handshake), after the purge
+    that precedes every transmission the datagram `write` takes next is within the CURRENT maximum `m` -/
+theorem no_unsendable_datagram_queued (ops : List Op) (hw : ∀ op ∈ ops, op.WF) (m : Nat) (d : Bytes) (rest : List Bytes)
+    (h : (purgeGlue (exec init ops) (some m)).1.outgoing = d :: rest) : d.length ≤ m := by
+  rcases purgeGlue_char _ (exec_inv ops init init_inv hw).out (some m) with ⟨hn, _⟩ | ⟨m', hm', hp⟩
+  · cases hn
+  · cases hm'
+    rw [hp] at h
+    exact head_dropWhile_fits m _ d rest h
+
+/-- ... and is therefore really written: after the purge with `m = max_size()`, `write` into an empty packet with
+    the frame budget `current_mtu − overhead` succeeds whenever the queue is not empty (liveness of the queue) -/
+theorem purged_head_is_written (ops : List Op) (hw : ∀ op ∈ ops, op.WF) (mtu oh : Nat) (peer : Option Nat) (m : Nat)
+    (hm : maxSize mtu oh peer = some (some m)) (hmtu : mtu < 2^62) :
+    let s := (purgeGlue (exec init ops) (some m)).1
+    s.outgoing = [] ∨ ∃ buf, (write s [] (mtu - oh)).2 = .wrote true buf := by
+  intro s
+  have hi := exec_inv ops init init_inv hw
+  have hs : Inv s := (step_inv _ hi (.purgeGlue (some m)) trivial).1
+  rcases write_char s hs [] (mtu - oh) with ⟨_, hq | ⟨d, rest, fs, hq, hfs, hlt⟩⟩ | ⟨d, rest, fs, fr, _, _, _, _, _, hwr⟩
+  · exact Or.inl hq
+  · have hd := no_unsendable_datagram_queued ops hw m d rest hq
+    obtain ⟨fs', hfs', hle⟩ := fits_packet mtu oh peer m hm hmtu d hd
+    rw [hfs] at hfs'; cases hfs'
+    simp only [List.length_nil, Nat.zero_add] at hlt
+    omega
+  · exact Or.inr ⟨_, by rw [hwr]⟩
 
 def b (n : Nat) : Bytes := List.replicate n 7
+
+/-! ### RFC 9221 §3: the two `max_datagram_frame_size` limits (audit SD-17, SD-26) — full statements, the
+    counterexamples the current code admits, and what does hold -/
+
+/-- RECEIVER (RFC 9221 §3: "An endpoint that receives a DATAGRAM frame that is larger than the value it sent in
+    its max_datagram_frame_size transport parameter MUST terminate the connection with an error of type
+    PROTOCOL_VIOLATION").  The value sent is `Gen.dgAdvertisedFrameSize window` and covers type, length and
+    payload; the smallest frame carrying `d` (no length field) has `1 + d.length` bytes.  Full statement:
+    `received` answers "oversized datagram" exactly when even that smallest frame exceeds the advertised value. -/
+def received_oversized_iff_frame_gt_advertised_statement : Prop :=
+  ∀ (d : Bytes) (w : Nat),
+    (received init d (some w)).2 = .rcvErr .oversized ↔ Gen.dgAdvertisedFrameSize w < 1 + d.length
+
+/-- witness: receive buffer (= advertised frame size) 5, payload 5: a frame of at least 6 bytes is accepted -/
+def oversizedWitness : Bytes × Nat := (b 5, 5)
+
+/-- FINDING (key `dgram-oversized-vs-advertised`): the code compares the PAYLOAD with the buffer size -/
+theorem received_oversized_iff_frame_gt_advertised_counterexample :
+    ¬ received_oversized_iff_frame_gt_advertised_statement := by
+  intro h
+  have := (h oversizedWitness.1 oversizedWitness.2).2 (by decide)
+  revert this; decide
+
+/-- what holds: the code rejects exactly the payloads longer than the buffer, and such a rejection is never wrong
+    (every frame carrying the payload exceeds the advertised value); the converse fails by at most the frame
+    overhead (`w.min 65535 - 1 < len ≤ w`) -/
+theorem received_oversized_partial (ops : List Op) (hw : ∀ op ∈ ops, op.WF) (d : Bytes) (w : Nat) :
+    ((received (exec init ops) d (some w)).2 = .rcvErr .oversized ↔ w < d.length)
+    ∧ (w < d.length → Gen.dgAdvertisedFrameSize w < 1 + d.length) := by
+  refine ⟨?_, fun h => by simp only [Gen.dgAdvertisedFrameSize, Nat.min_def]; split <;> omega⟩
+  rcases received_char _ (exec_inv ops init init_inv hw).inc d (some w) with
+    ⟨hn, _⟩ | ⟨w', hw', hlt, h⟩ | ⟨w', hw', hle, _, h⟩ | ⟨w', k, hw', hc, h, _, _⟩
+  · cases hn
+  · cases hw'; rw [h]; simp [hlt]
+  · cases hw'; rw [h]; simp only [reduceCtorEq, false_iff]; omega
+  · cases hw'; rw [h]; simp only [reduceCtorEq, false_iff]; have := len_le_recvCost d; omega
+
+/-- SENDER (RFC 9221 §3: the peer's max_datagram_frame_size bounds the whole frame; 0 = DATAGRAM not supported).
+    Full statement: the frame written for any datagram `send` can accept is within the peer's limit. -/
+def send_respects_peer_limit_statement : Prop :=
+  ∀ (mtu oh p m : Nat) (d : Bytes), maxSize mtu oh (some p) = some (some m) → mtu < 2^62 → d.length ≤ m →
+    ∃ fs, frameSize d = some fs ∧ fs ≤ p
+
+/-- FINDING (key `dgram-send-exceeds-peer-limit`): peer limit 0 ("unsupported") or 1 gives `max_size() = Some(0)`
+    and an empty datagram is sent as a 2-byte frame -/
+theorem send_respects_peer_limit_counterexample : ¬ send_respects_peer_limit_statement := by
+  intro h
+  obtain ⟨fs, hfs, hle⟩ := h 1200 29 0 0 [] (by decide) (by decide) (by decide)
+  have : frameSize [] = some 2 := by decide
+  rw [this] at hfs; cases hfs; omega
+
+/-- what holds: for every peer limit of at least 2 bytes the frame is within the limit -/
+theorem send_respects_peer_limit_partial (mtu oh p m : Nat) (d : Bytes) (h : maxSize mtu oh (some p) = some (some m))
+    (hmtu : mtu < 2^62) (hp : 2 ≤ p) (hd : d.length ≤ m) : ∃ fs, frameSize d = some fs ∧ fs ≤ p := by
+  obtain ⟨hfit, p', hp', hmp, _⟩ := (maxSize_some mtu oh (some p) _ h).2 m rfl
+  cases hp'
+  by_cases h0 : d.length = 0
+  · have : d = [] := List.eq_nil_of_length_eq_zero h0
+    subst this
+    exact ⟨2, by decide, hp⟩
+  · obtain ⟨fs, fr, hfs, _, _, hbound, _⟩ := frame_ok d (by omega)
+    refine ⟨fs, hfs, ?_⟩
+    simp only [Gen.dgSizeBound] at *
+    omega
+
+/-! ### non-vacuity (concrete runs meeting the hypotheses) and an observation -/
+
 
 /-- three sends into a 10-byte buffer: the third blocks, the fourth (drop) evicts only the oldest -/
 def demoOps : List Op :=
@@ -299,7 +420,17 @@ example : (exec init [.received [] (some 0), .received [] (some 0)]).incoming = 
 example : (write (exec init demoOps) [0xee] 8).2 = .wrote true [0xee, 0x31, 5, 7, 7, 7, 7, 7]
     ∧ (write (exec init demoOps) [0xee] 7).2 = .wrote false [0xee] := by decide
 example : (writeLoop (exec init demoOps) [] 12).2 = .loop 1 [0x31, 5, 7, 7, 7, 7, 7] true := by decide
-example : maxSize 1200 (overhead 8) (some 65535) = some (some 1162) ∧ maxSize 37 (overhead 8) none = none := by decide
+example : maxSize 1200 (overhead 8 none) (some 65535) = some (some 1162) ∧ maxSize 37 (overhead 8 none) none = none
+    ∧ maxSize 1200 (overhead 8 (some 8)) (some 65535) = some (some 1146) := by decide
+/-- a 1162-byte datagram in a 1-RTT packet (8-byte CID, 4-byte packet number): 1194 ≤ 1200; the same datagram in a
+    0-RTT packet would need 1210 bytes — `max_size()` is 1146 there, and 1146 bytes make 1194 again -/
+example : dataPacketLen 8 none 4 (1 + 2 + 1162) 16 = 1194 ∧ dataPacketLen 8 (some 8) 4 (1 + 2 + 1162) 16 = 1210
+    ∧ dataPacketLen 8 (some 8) 4 (1 + 2 + 1146) 16 = 1194 := by decide
+/-- the queue of `demoOps` ([5 bytes, 3 bytes], blocked) after the maximum shrank to 4: the purge drops the head,
+    reports `DatagramsUnblocked`, and the 3-byte datagram is written -/
+example : (purgeGlue (exec init demoOps) (some 4)).1.outgoing = [b 3]
+    ∧ (purgeGlue (exec init demoOps) (some 4)).2 = .glue (some (true, true))
+    ∧ (purgeGlue (exec init demoOps) (some 5)).2 = .glue (some (false, false)) := by decide
 example : decodeFrame ([0x31, 2, 9, 8] ++ [1]) = some ([9, 8], [1]) := by decide
 
 /-- OBSERVATION (not a violation: datagrams may be dropped): after a black hole the glue calls
